@@ -620,7 +620,7 @@ func flReader(c *Ctx, a *flAgg) {
 	fill := c.MustFunc(a.obls, "FL-fill-once", "stack", "reader", "fill")
 	if fill != nil {
 		exprHome = fill.Pkg.Pkg
-		x := &SPE{Fn: fill, MaxVisits: 4}
+		x := &SPE{Fn: fill, MaxVisits: 4, Inline: isAccessor}
 		x.Explore()
 		c.stat("FL", "fill_paths", len(x.Paths))
 		isRead := isInvoke("Read")
@@ -695,6 +695,12 @@ func flReader(c *Ctx, a *flAgg) {
 				okW, okR, okCopy := false, false, false
 				for _, ev := range p.Events {
 					if ev.Kind == EvStore && strings.HasSuffix(ev.Addr.String(), "r.w") && ev.Val.String() == "(r.w - r.r)" {
+						okW = true
+					}
+					// w = copy(buf[:], buf[r:w]): the number of bytes moved, which is
+					// w - r because the unread part fits in the buffer (RB-inv)
+					if v := ev.Val; ev.Kind == EvStore && strings.HasSuffix(ev.Addr.String(), "r.w") && v.Op == OpBuiltin && v.Name == "copy" && len(v.Args) == 2 &&
+						v.Args[0].String() == "r.buf[:]" && v.Args[1].String() == "r.buf[r.r:r.w]" {
 						okW = true
 					}
 					if ev.Kind == EvStore && strings.HasSuffix(ev.Addr.String(), "r.r") {
@@ -806,7 +812,7 @@ func flReader(c *Ctx, a *flAgg) {
 	rs := c.MustFunc(a.obls, "FL-fill-guard", "stack", "reader", "readSlice")
 	if rs != nil {
 		exprHome = rs.Pkg.Pkg
-		x := &SPE{Fn: rs, MaxVisits: 3}
+		x := &SPE{Fn: rs, MaxVisits: 3, Inline: isAccessor}
 		x.Explore()
 		c.stat("FL", "readSlice_paths", len(x.Paths))
 		isFill := isCallTo(stackPkg, "(*reader).fill")
@@ -913,7 +919,7 @@ func flReader(c *Ctx, a *flAgg) {
 	rl := c.MustFunc(a.obls, "FL-chunk-once", "stack", "reader", "readLine")
 	if rl != nil {
 		exprHome = rl.Pkg.Pkg
-		x := &SPE{Fn: rl, MaxVisits: 3}
+		x := &SPE{Fn: rl, MaxVisits: 3, Inline: isAccessor}
 		x.Explore()
 		c.stat("FL", "readLine_paths", len(x.Paths))
 		isRS := isCallTo(stackPkg, "(*reader).readSlice")
